@@ -510,6 +510,11 @@ class Gen:
                 imp_lines.insert(rng.randint(0, len(imp_lines)), "  - @PYRTMA_CORE_DEFS@")
                 self.desc.features.add("explicit_import_of_package_core_defs")
             head = "imports:" + (" null\n" if not imp_lines else "\n" + "\n".join(imp_lines) + "\n")
+            if i != k - 1 and rng.random() < 0.06:
+                # an imported file that still carries compiler options from the days it was compiled on its own
+                # (options count in the file named on the command line only)
+                body = body.rstrip("\n") + "\ncompiler_options:\n  " + rng.choice(["AUTO_PAD: false", "VALIDATE_ALIGNMENT: false", "AUTO_PAD: false\n  VALIDATE_ALIGNMENT: false"]) + "\n"
+                self.desc.features.add("imported_file_with_compiler_options")
             files[paths[i]] = head + body
         # other spellings of the same YAML (per file): document markers, CRLF line ends, trailing comments, an empty
         # value instead of null, a blank before the array bracket
